@@ -99,6 +99,13 @@ func (fr *Frame) props() []string {
 }
 
 func (fr *Frame) safety(label string, p token.Pos, goal *Term) {
+	if isTrue(goal) {
+		fr.cx.trivialSafety++
+		return
+	}
+	if fr.fn != fr.cx.fn {
+		label = label + "@" + strings.TrimPrefix(shortName(fr.fn.String()), "txfile.")
+	}
 	if fr.cx.bc != nil && fr.cx.bc.C.NoSafety {
 		fr.cx.assume(fr.b().Implies(fr.reach, goal))
 		return
@@ -614,8 +621,20 @@ func (fr *Frame) frameCheck(label string, from, to *State, mods []ModLoc, p toke
 		l := b.Const("frame_l", SLoc)
 		var allowed []*Term
 		allowed = append(allowed, fr.cx.rootIsNew(l))
+		if len(w.exemptFID) > 0 {
+			var ids []*Term
+			for fid := range w.exemptFID {
+				ids = append(ids, b.Eq(b.App("fid", SInt, l), b.Int(int64(fid))))
+			}
+			sort.Slice(ids, func(i, j int) bool { return ids[i].id < ids[j].id })
+			allowed = append(allowed, b.And(b.mk("(_ is Fld)", SBool, l), b.Or(ids...)))
+		}
 		isMapHeap := strings.HasPrefix(hn, "M_") || strings.HasPrefix(hn, "MD_") || hn == "ML"
 		for _, m := range mods {
+			if m.all {
+				allowed = append(allowed, b.True())
+				continue
+			}
 			if isMapHeap {
 				if m.mapp != nil {
 					allowed = append(allowed, b.Eq(l, m.mapp))
